@@ -70,4 +70,25 @@ fn c04_sgr_color() {
     kani::cover!(got.is_some() && n == 6 && !colon);
     kani::cover!(got.is_some() && n == 3 && v[2] > 231);
 }
+
+fn hexval(b: u8) -> Option<u8> {
+    if b >= b'0' && b <= b'9' { Some(b - b'0') } else if b >= b'a' && b <= b'f' { Some(b - b'a' + 10) } else if b >= b'A' && b <= b'F' { Some(b - b'A' + 10) } else { None }
+}
+
+//# kind=complete tier=quick props=C04,C02 fns=hex_decode | hex_decode on any two byte pairs (termcap payloads): each pair of hex digits (either case) yields its byte value, decoding stops at the first pair that is not two hex digits, never a panic
+#[kani::proof]
+#[kani::unwind(6)]
+fn c04_hex_decode_pairs() {
+    let d: [u8; 4] = kani::any();
+    let mut it = hex_decode(&d);
+    let first = it.next();
+    let second = it.next();
+    let third = it.next();
+    let p0 = match (hexval(d[0]), hexval(d[1])) { (Some(h), Some(l)) => Some((h << 4) | l), _ => None };
+    let p1 = match (hexval(d[2]), hexval(d[3])) { (Some(h), Some(l)) => Some((h << 4) | l), _ => None };
+    assert!(first == p0);
+    assert!(second == if p0.is_some() { p1 } else { None });
+    assert!(third.is_none());
+    kani::cover!(first.is_some() && second.is_some());
+}
 """.replace("/*COMMON*/", COMMON)
